@@ -396,6 +396,8 @@ type WitnessTarget struct {
 	// P is the storage under the witness (for planting states a witness reaches by
 	// itself over time, e.g. a cosignature made yesterday).
 	P persistence.LogStatePersistence
+	// DB is set when the storage is SQLite opened through the wrapped driver.
+	DB *sql.DB
 }
 
 // Plant writes raw as the stored checkpoint of logID, bypassing the witness.
@@ -425,8 +427,19 @@ type Armer interface {
 
 // Arm implements Armer.
 func (t WitnessTarget) Arm(fs []FaultSpec) {
+	var iface, drv []FaultSpec
+	for _, f := range fs {
+		if strings.HasPrefix(f.Point, "drv:") {
+			drv = append(drv, f)
+		} else {
+			iface = append(iface, f)
+		}
+	}
 	if t.IP != nil {
-		t.IP.Arm(fs...)
+		t.IP.Arm(iface...)
+	}
+	if t.DB != nil {
+		Drv.Arm(drv)
 	}
 }
 
@@ -440,7 +453,38 @@ func (t WitnessTarget) Disarm() ([]string, []string) {
 	tr := append([]string{}, t.IP.Trace...)
 	t.IP.mu.Unlock()
 	t.IP.Disarm()
+	if t.DB != nil {
+		df, dt := Drv.Disarm()
+		f = append(f, df...)
+		tr = append(tr, dt...)
+	}
 	return f, tr
+}
+
+// NewFaultTarget builds a real witness on instrumented storage; SQL storage goes
+// through the wrapped driver so that driver-level faults can be injected too.
+func (e *Env) NewFaultTarget() (WitnessTarget, func(), error) {
+	var p persistence.LogStatePersistence
+	var db *sql.DB
+	closer := func() {}
+	if e.Case.Storage == "sql" {
+		var err error
+		db, err = OpenVerifDB(":memory:")
+		if err != nil {
+			return WitnessTarget{}, nil, err
+		}
+		p = psql.NewPersistence(db)
+		closer = func() { _ = db.Close() }
+	} else {
+		p = inmemory.NewPersistence()
+	}
+	ip := NewIPersist(p)
+	w, err := witness.New(witness.Opts{Persistence: ip, Signers: e.Signers(), KnownLogs: e.KnownLogs()})
+	if err != nil {
+		closer()
+		return WitnessTarget{}, nil, err
+	}
+	return WitnessTarget{W: w, IP: ip, P: p, DB: db}, closer, nil
 }
 
 // Update implements Target.
@@ -1002,6 +1046,8 @@ type RunOpts struct {
 	AfterStep func(e *Env, t Target, st *Step) error
 	// NoSnapshots skips the full pre/post snapshots (only the named log is read).
 	NoSnapshots bool
+	// AfterUpdate is called as soon as the request returned, before any further read.
+	AfterUpdate func(e *Env, t Target, st *Step) error
 }
 
 // Exec plays the case's ops against t and returns the observations.
@@ -1061,6 +1107,12 @@ func (e *Env) Exec(t Target, o RunOpts) ([]*Step, error) {
 		st.End = time.Now()
 		if armer != nil {
 			st.Fired, st.Trace = armer.Disarm()
+		}
+		if o.AfterUpdate != nil {
+			if err := o.AfterUpdate(e, t, st); err != nil {
+				steps = append(steps, st)
+				return steps, fmt.Errorf("step %d (%s): %w", i, op.Note, err)
+			}
 		}
 		if st.Verdict == VAccepted {
 			e.okProofs = append(e.okProofs, cloneProof(st.Req.Proof))
